@@ -102,8 +102,10 @@ def inline_body(prog, body, known, depth=0, stack=()):
 def apply(prog, verif_dir):
     p = os.path.join(verif_dir, 'spec', 'known_functions.json')
     if not os.path.exists(p):
+        prog.known_functions = set(prog.bodies)
         return 0
     known = set(json.load(open(p)))
+    prog.known_functions = known
     n = 0
     for key in list(prog.bodies):
         b = prog.bodies[key]
